@@ -249,23 +249,54 @@ func (w osSink) ReadFrom(r io.Reader) (int64, error) {
 	return n, err
 }
 
+// osSinkC: the *os.File-backed wrapped writer with the file's real Close (a second Close fails
+// with os.ErrClosed, like a file the caller closed before pw.Close()).
+type osSinkC struct{ osSink }
+
+func (w osSinkC) Close() error {
+	w.s.closeCalls++
+	if w.s.inPwClose {
+		w.s.closeCallsLib++
+	}
+	return w.f.Close()
+}
+
+var closerKinds = []string{"ok", "fail", "already", "slow"}
+
+// genCloser decides whether the wrapped writer of a scenario gets a Close method.
+func genCloser(r *rand.Rand, cs *Case) {
+	if r.Intn(5) >= 2 {
+		return
+	}
+	cs.Closer = closerKinds[r.Intn(len(closerKinds))]
+	if cs.OSW != "" && (cs.Closer == "fail" || cs.Closer == "slow") {
+		cs.Closer = []string{"ok", "already"}[r.Intn(2)] // a real file: its real Close
+	}
+}
+
 var osKinds = []string{"tmpfile", "devnull", "devfull", "brokenpipe", "pipequota"}
 
 // openOSSink opens the OS-backed wrapped writer of a scenario; cleanup releases everything.
-func openOSSink(kind string, quota int, sk *sink) (w io.Writer, cleanup func(), err error) {
+func openOSSink(kind string, quota int, sk *sink, closer bool) (w io.Writer, cleanup func(), err error) {
+	wrap := func(f *os.File) io.Writer {
+		if closer {
+			return osSinkC{osSink{sk, f}}
+		}
+		return osSink{sk, f}
+	}
 	switch kind {
 	case "tmpfile":
 		f, e := os.CreateTemp("", "verif-progress-dst-*")
 		if e != nil {
 			return nil, nil, e
 		}
-		return osSink{sk, f}, func() { f.Close(); os.Remove(f.Name()) }, nil
+		return wrap(f), func() { f.Close(); os.Remove(f.Name()) }, nil
 	case "devnull", "devfull":
 		f, e := os.OpenFile("/dev/"+kind[3:], os.O_WRONLY, 0)
 		if e != nil {
 			return nil, nil, e
 		}
-		return osSink{sk, f}, func() { f.Close() }, nil
+		return wrap(f), func() { f.Close() }, nil
 	case "brokenpipe", "pipequota":
 		r, wr, e := os.Pipe()
 		if e != nil {
@@ -282,7 +313,7 @@ func openOSSink(kind string, quota int, sk *sink) (w io.Writer, cleanup func(), 
 				r.Close()
 			}()
 		}
-		return osSink{sk, wr}, func() { wr.Close(); r.Close(); <-done }, nil
+		return wrap(wr), func() { wr.Close(); r.Close(); <-done }, nil
 	}
 	return nil, nil, fmt.Errorf("unknown OS writer %q", kind)
 }
@@ -347,5 +378,6 @@ func genCallers(r *rand.Rand) Case {
 			cs.Cons.PauseAt, cs.Cons.ResumeAt = a, a+1+r.Intn(n-a)
 		}
 	}
+	genCloser(r, &cs)
 	return cs
 }
